@@ -345,7 +345,7 @@ struct LoginParameters
 
 	unsigned _login_retry_interval = defaults::retry_interval, _login_retries = defaults::login_retries,
 				_connect_timeout = defaults::connect_timeout;
-	bool _reset_sequence_numbers = false, _always_seqnum_assign, _silent_disconnect = false, _no_chksum_flag = false,
+	bool _reset_sequence_numbers = false, _always_seqnum_assign = false, _silent_disconnect = false, _no_chksum_flag = false,
 		  _permissive_mode_flag = false, _reliable = false, _enforce_compids=true;
 	default_appl_ver_id _davi;
 	unsigned _recv_buf_sz = 0, _send_buf_sz = 0, _hb_int = defaults::hb_interval;
